@@ -152,26 +152,34 @@ def getChallenges (c : CommonData) (pih : Digest) (circuitDigest : Digest) (p : 
 
 /-! ### shape validation -/
 
-/-- `validate_proof_with_pis_shape` (+ `MerkleCap::height()` panics on a non power of two) -/
-def validateShape (c : CommonData) (pp : ProofWithPis) : Verdict := Id.run do
+/-- `cap.height() == cap_height` (`MerkleCap::height()` panics on a non power of two) -/
+def capCheck (capHeight : Nat) (cap : List Digest) : Verdict :=
+  match log2Strict cap.length with
+  | none => .panic "cap.height(): not a power of two"
+  | some h => if h = capHeight then .accept else .reject "shape"
+
+def lenCheck (ok : Bool) (stage : String) : Verdict := if ok then .accept else .reject stage
+
+/-- the checks of `validate_proof_with_pis_shape`, in the order the code performs them -/
+def shapeChecks (c : CommonData) (pp : ProofWithPis) : List Verdict :=
   let p := pp.proof
-  let capHeight := c.friParams.config.capHeight
-  for cap in [p.wiresCap, p.zsPartialProductsCap, p.quotientPolysCap] do
-    match log2Strict cap.length with
-    | none => return .panic "cap.height(): not a power of two"
-    | some h => if h ≠ capHeight then return .reject "shape"
   let o := p.openings
-  if o.constants.length ≠ c.numConstants then return .reject "shape"
-  if o.plonkSigmas.length ≠ c.config.numRoutedWires then return .reject "shape"
-  if o.wires.length ≠ c.config.numWires then return .reject "shape"
-  if o.plonkZs.length ≠ c.config.numChallenges then return .reject "shape"
-  if o.plonkZsNext.length ≠ c.config.numChallenges then return .reject "shape"
-  if o.partialProducts.length ≠ c.config.numChallenges * c.numPartialProducts then return .reject "shape"
-  if o.quotientPolys.length ≠ c.numQuotientPolys then return .reject "shape"
-  if o.lookupZs.length ≠ c.numAllLookupPolys then return .reject "shape"
-  if o.lookupZsNext.length ≠ c.numAllLookupPolys then return .reject "shape"
-  if pp.publicInputs.length ≠ c.numPublicInputs then return .reject "shape-pis"
-  return .accept
+  let capHeight := c.friParams.config.capHeight
+  [ capCheck capHeight p.wiresCap, capCheck capHeight p.zsPartialProductsCap,
+    capCheck capHeight p.quotientPolysCap,
+    lenCheck (o.constants.length == c.numConstants) "shape",
+    lenCheck (o.plonkSigmas.length == c.config.numRoutedWires) "shape",
+    lenCheck (o.wires.length == c.config.numWires) "shape",
+    lenCheck (o.plonkZs.length == c.config.numChallenges) "shape",
+    lenCheck (o.plonkZsNext.length == c.config.numChallenges) "shape",
+    lenCheck (o.partialProducts.length == c.config.numChallenges * c.numPartialProducts) "shape",
+    lenCheck (o.quotientPolys.length == c.numQuotientPolys) "shape",
+    lenCheck (o.lookupZs.length == c.numAllLookupPolys) "shape",
+    lenCheck (o.lookupZsNext.length == c.numAllLookupPolys) "shape",
+    lenCheck (pp.publicInputs.length == c.numPublicInputs) "shape-pis" ]
+
+/-- `validate_proof_with_pis_shape` -/
+def validateShape (c : CommonData) (pp : ProofWithPis) : Verdict := firstBad (shapeChecks c pp)
 
 /-! ### vanishing polynomial -/
 
@@ -321,18 +329,21 @@ def friInstance (c : CommonData) (zeta : GL2) : Fri.Instance :=
 /-- `get_public_inputs_hash` -/
 def publicInputsHash (pis : List GL) : Digest := Sponge.hashNoPad Sponge.poseidonPerm pis
 
-/-- `verify_with_challenges` -/
-def verifyWithChallenges (c : CommonData) (vd : VerifierOnly) (p : Proof) (pih : Digest)
-    (ch : Challenges) : Verdict :=
+/-- the polynomial identity `vanishing(ζ) = Z_H(ζ)·t(ζ)` for every challenge index, as
+`verify_with_challenges` checks it (`t(ζ)` recombined from its degree-`n` chunks) -/
+def identityHolds (c : CommonData) (p : Proof) (pih : Digest) (ch : Challenges) : Bool :=
   let vanishing := evalVanishingPoly c ch.zeta p.openings pih ch
   let zetaPowDeg := FOps.pow ch.zeta (2 ^ c.degreeBits)
   let zH := zetaPowDeg - FOps.one
-  let chunks := chunksOf c.quotientDegreeFactor p.openings.quotientPolys
-  let identityOk := (chunks.zipIdx).all fun (chunk, i) =>
+  ((chunksOf c.quotientDegreeFactor p.openings.quotientPolys).zipIdx).all fun (chunk, i) =>
     match vanishing[i]? with
     | none => false          -- index panic in the code; unreachable after shape validation
     | some v => v == zH * Fri.reduceExt chunk zetaPowDeg
-  if !identityOk then .reject "identity" else
+
+/-- `verify_with_challenges` -/
+def verifyWithChallenges (c : CommonData) (vd : VerifierOnly) (p : Proof) (pih : Digest)
+    (ch : Challenges) : Verdict :=
+  if !identityHolds c p pih ch then .reject "identity" else
   Fri.verify (friInstance c ch.zeta) p.openings.toFriOpenings ch.fri
     [vd.constantsSigmasCap, p.wiresCap, p.zsPartialProductsCap, p.quotientPolysCap]
     p.openingProof c.friParams
